@@ -65,10 +65,17 @@ def run_digitize(sorted_bins, asc, exact=True):
                    numpy=[int(v) for v in numpy.digitize(x, bins, right=True)]))
     for e in ev[:-1]:
         e.pop("node")
-    return ev
+    t = tree.tree_
+    table = dict(left=[int(v) for v in t.children_left], right=[int(v) for v in t.children_right],
+                 th=[-1 if t.children_left[k] < 0 else pos.get(float(t.threshold[k]), -9) for k in range(t.node_count)],
+                 values=ev[-1]["values"], pred=ev[-1]["pred"], numpy=ev[-1]["numpy"])
+    return ev, table
 
 
 def digitize_part(ctx, thorough):
+    """Two layers (DESIGN 2.2).  Demanded: the finished tree computes numpy.digitize on every query class - decided by
+    DigitizeFnTrace on the node table, whatever algorithm built it.  Mechanism: the recorded tree_add_node calls are the
+    node sequence of the DigitizeTree model - a mismatch there, with the demanded layer satisfied, is MODEL-DRIFT."""
     MB = 48 if thorough else 12
     invs = "".join("INVARIANT %s\n" % i for i in ("IsDigitize", "AllCasesHandled", "WellFormed", "LeavesCoverBins"))
     base = "SPECIFICATION Spec\nCONSTANTS MaxBins = %d\n" % MB
@@ -76,6 +83,18 @@ def digitize_part(ctx, thorough):
     ctx.require_coverage(r, ["AddRoot", "AddNode", "Finish"], "DigitizeTree")
     res = tlc.must_ok(tlc.run("MC_DigitizeTree", base + "CONSTRAINT Emit\n", workers=1), "emit DigitizeTree")
     seen = set()
+    fn_traces, mech_traces = [], []
+
+    def fn_trace(n, asc, sig, table, bins=()):
+        if -9 in table["th"]:
+            # a split that is not on a bin edge: the classes are not exhaustive for this tree; the sampled predictions
+            # (edges, their neighbours, midpoints, beyond) are still compared with numpy.digitize
+            ctx.skipped.append("digitize2tree(%s, n=%d): a threshold is not a bin edge; decided on the sampled classes only" % (sig, n))
+            if table["pred"] != table["numpy"]:
+                ctx.violation("IsDigitize", DSITE, sig, dict(pred=table["pred"], numpy=table["numpy"]), case=dict(n=n, asc=asc, bins=bins))
+            return
+        fn_traces.append(dict(id="fn%d" % (len(fn_traces) + 1), n=n, asc=asc, sig=sig, site=DSITE, bins=list(bins), **table))
+
     for case in res.json:
         key = (case["n"], case["asc"])
         if key in seen:
@@ -87,22 +106,19 @@ def digitize_part(ctx, thorough):
         ctx.traces += 1
         sb = [0.25 * 2 * (b + 1) for b in range(n)]
         try:
-            ev = run_digitize(sb, asc)
+            ev, table = run_digitize(sb, asc)
         except Exception as e:
             ctx.violation("CallSucceeds", DSITE, sig, repr(e), case=key)
             continue
-        want = [dict(a="add", parent=nd["parent"], left=nd["left"], leaf=nd["leaf"], th=nd["th"]) for nd in case["nodes"]]
-        if ev[:-1] != want:
-            ctx.violation("NodeSequence", DSITE, sig, dict(got=ev[:-1][:10], want=want[:10]), case=key)
-        if ev[-1]["values"] != [nd["val"] for nd in case["nodes"]]:
-            ctx.violation("NodeValues", DSITE, sig, dict(got=ev[-1]["values"]), case=key)
-        if ev[-1]["pred"] != case["pred"]:
-            ctx.violation("IsDigitize", DSITE, sig, dict(got=ev[-1]["pred"], want=case["pred"]), case=key)
-        if ev[-1]["numpy"] != case["pred"]:
+        fn_trace(n, asc, sig, table)
+        if table["numpy"] != case["pred"]:
             raise tlc.TLCError("spec Digitize differs from numpy.digitize for %r" % (key,))
+        want = [dict(a="add", parent=nd["parent"], left=nd["left"], leaf=nd["leaf"], th=nd["th"]) for nd in case["nodes"]]
+        if ev[:-1] != want or ev[-1]["values"] != [nd["val"] for nd in case["nodes"]]:
+            ctx.model_drift("digitize2tree builds another node sequence than DigitizeTree", DSITE,
+                            dict(n=n, asc=asc, got=ev[:-1][:6], want=want[:6]))
     # C2S
     rng = ctx.rng
-    traces = []
     for k in range(500 if thorough else 40):
         n = rng.choice([1, 2, 3, rng.randint(4, 40), rng.randint(13, 90 if thorough else 60)])
         vals = sorted(rng.sample(range(-400, 400), n))
@@ -113,16 +129,28 @@ def digitize_part(ctx, thorough):
         sig = ("asc" if asc else "desc") + ("" if exact else " float64 edges")
         ctx.case(("digc", n, asc, tuple(vals), exact), nontrivial=n >= 2)
         try:
-            ev = run_digitize(sb, asc, exact)
+            ev, table = run_digitize(sb, asc, exact)
         except Exception as e:
             ctx.violation("CallSucceeds", DSITE, sig, repr(e), case=dict(bins=sb, asc=asc))
             continue
-        traces.append(dict(id=k + 1, n=n, asc=asc, ev=ev, sig=sig, site=DSITE, bins=sb))
-    verdicts, st = tlc.validate("DigitizeTrace", "DigitizeTrace.cfg", traces)
+        fn_trace(n, asc, sig, table, bins=sb)
+        mech_traces.append(dict(id=k + 1, n=n, asc=asc, ev=ev, sig=sig, site=DSITE, bins=sb))
+    verdicts, st = tlc.validate("DigitizeFnTrace", "DigitizeFnTrace.cfg", fn_traces)
     ctx.states += st["states"]
     ctx.transitions += st["transitions"]
-    ctx.verdicts(verdicts, {t["id"]: t for t in traces}, DSITE)
-    ctx.extra.setdefault("trace_runs", []).append(dict(spec="DigitizeTrace", traces=len(traces), **st))
+    ctx.verdicts(verdicts, {t["id"]: t for t in fn_traces}, DSITE)
+    ctx.extra.setdefault("trace_runs", []).append(dict(spec="DigitizeFnTrace", traces=len(fn_traces), **st))
+    bad_fn = {t["id"] for t in fn_traces if not verdicts[t["id"]].ok}
+    # mechanism layer
+    verdicts, st = tlc.validate("DigitizeTrace", "DigitizeTrace.cfg", mech_traces)
+    ctx.states += st["states"]
+    ctx.transitions += st["transitions"]
+    ctx.extra.setdefault("trace_runs", []).append(dict(spec="DigitizeTrace", traces=len(mech_traces), **st))
+    for t in mech_traces:
+        v = verdicts[t["id"]]
+        ctx.traces += 1
+        if not v.ok and not bad_fn:
+            ctx.model_drift("digitize2tree builds another node sequence than DigitizeTree", DSITE, v.describe())
     return len(seen)
 
 
